@@ -315,6 +315,8 @@ int pthread_join(pthread_t th, void **ret)
   hb_acquire(me, &t->vc);
   if (ret)
     *ret = t->ret;
+  if (!t->detached)
+    sim_real_join_and_recycle(t);
   return 0;
 }
 
